@@ -21,6 +21,9 @@ func (hl *HashLiteral) String() string {
 	pairs := []string{}
 	for _, key := range hl.Order {
 		p := hl.Pairs[key]
+		if key == nil || p == nil {
+			continue
+		}
 		pairs = append(pairs, key.String()+": "+p.String())
 	}
 
